@@ -4,6 +4,6 @@ from ..composite import Composite
 from ..e1 import E1Part, ReusePart
 
 E1 = E1Part("C07", [("timeouts", 3), ("leak", 1), ("graceful", 1), ("respawn", 2)], ["C07", "C03", "C01"],
-            ["LokyModel.Props.C07", "LokyModel.Props.C07Live"], quick=1200, thorough=40000)
+            ["LokyModel.Props.C07", "LokyModel.Props.C07Live", "LokyModel.Props.C07LiveCrash"], quick=1200, thorough=40000)
 REUSE = ReusePart("C07", ["C07", "C03", "C01", "C10"], [], quick=500, thorough=15000, families=[("reuse", 1)])
 PROP = Composite("C07", [E1, REUSE])
